@@ -46,11 +46,13 @@ def cases(ctx):
 def same_member(a, b):
     if type(a).__name__ != type(b).__name__:
         return f"type {type(a).__name__} != {type(b).__name__}"
-    comps_a = [a] if type(a).__name__ == "Array" else list(a._xyz.items())
+    def pub(v):      # the components through the public attributes
+        return {c_: getattr(v, c_) for c_ in "xyz" if getattr(v, c_) is not None}
+    comps_a = [a] if type(a).__name__ == "Array" else list(pub(a).items())
     if type(a).__name__ == "Vector":
-        if list(a._xyz.keys()) != list(b._xyz.keys()):
-            return f"components {list(a._xyz.keys())} != {list(b._xyz.keys())}"
-        pairs = [(a._xyz[c], b._xyz[c]) for c in a._xyz]
+        if list(pub(a).keys()) != list(pub(b).keys()):
+            return f"components {list(pub(a).keys())} != {list(pub(b).keys())}"
+        pairs = [(pub(a)[c], pub(b)[c]) for c in pub(a)]
     else:
         pairs = [(a, b)]
     for x, y in pairs:
